@@ -227,7 +227,7 @@ type HopByHopHeader struct {
 }
 
 func (h *HopByHopHeader) Len() uint16 {
-	return 8 * uint16(h.HEL+1)
+	return 8 * (uint16(h.HEL) + 1)
 }
 
 func (h *HopByHopHeader) MarshalBinary() (data []byte, err error) {
